@@ -31,7 +31,7 @@ Arguments v_data {data src} _.
 Arguments v_isrc {data src} _.
 (* ... and the values of a global-fit-parameter dependent data field as the
    manager holds them now (None: no such field / not calculated) *)
-Definition tv (data src gv : Type) : Type := (view data src * (option src * option gv))%type.
+Definition tv (data src gv : Type) : Type := (view data src * (option src * (option gv * option gv)))%type.
 
 Record world := mkworld {
   data : Type;            (* trial data sets *)
@@ -64,7 +64,9 @@ Record world := mkworld {
   (* the calculation function of the global-fit-parameter dependent data field:
      func(tdm, shg_mgr, pmm, global_fitparams_dict) — reads the manager (events,
      source data fields), the current source hypothesis and the parameter value *)
-  Fg : view data src -> option src -> src -> Z -> GV }.
+  Fg : view data src -> option src -> src -> Z -> GV;
+  (* a second such field, registered after the first, depending on another global parameter (ns) *)
+  Fg2 : view data src -> option src -> src -> Z -> GV }.
 
 (* configuration of the analysis objects *)
 Record cfg := mkcfg {
@@ -73,14 +75,16 @@ Record cfg := mkcfg {
   c_nstat : Z;          (* len(tdm._static_data_fields_dict) *)
   c_cache_pd : bool;    (* MultiDimGridPDF.cache_pd_values *)
   c_par : bool;         (* Parabola1D (true) or Linear1D (false) interpolation *)
-  c_ngfp : Z;           (* len(tdm._global_fitparam_data_fields_dict) (0 or 1 field, depending on the interpolation parameter) *)
+  c_ngfp : Z;           (* len(tdm._global_fitparam_data_fields_dict): 0, 1 (a field depending on the interpolation
+                           parameter) or 2 (and a field, registered last, depending on ns) *)
   c_gfp_srcevt : bool }. (* that field has is_srcevt_data=True (values kept in DataField._values, not in tdm.events) *)
 
 (* trace of what is actually computed during one operation *)
 Inductive tr := TF (g : Z)      (* manifold function called for grid value g *)
               | TP (g : Z)      (* signal PDF of grid value g evaluated (not served from _cache_pd) *)
               | TB              (* background PDF evaluated *)
-              | TG.             (* calculation function of the global-fit-parameter data field called *)
+              | TG              (* calculation function of the global-fit-parameter data field called *)
+              | TG2.            (* ... of the second field *)
 
 Section Machine.
 Variable W : world.
@@ -102,12 +106,12 @@ Record state := mkst {
   s_sig : Z -> pdfc;                        (* per grid value: _cache_tdm_trial_data_state_id, _cache_pd *)
   s_bkg : pdfc;
   s_nsg : option (G W);                     (* llhratio._cache_nsgrad_i *)
-  s_gkey : option Z;                        (* DataField._global_fitparam_value_list *)
-  s_gv : option (GV W) }.                   (* the field's values: column of tdm.events, or DataField._values (srcevt) *)
+  s_gkey : option Z * option Z;             (* DataField._global_fitparam_value_list of the two fields *)
+  s_gv : option (GV W) * option (GV W) }.                   (* the field's values: column of tdm.events, or DataField._values (srcevt) *)
 
 (* what the PDFs can read besides the events: source data fields and the
    global-fit-parameter dependent field *)
-Definition s_ext (st : state) : option Src * option (GV W) := (s_srcf st, s_gv st).
+Definition s_ext (st : state) : option Src * (option (GV W) * option (GV W)) := (s_srcf st, s_gv st).
 
 Definition set_sid (st : state) v := mkst v (s_view st) (s_srcf st) (s_cur st) (s_evd st) (s_lin st) (s_par st) (s_sig st) (s_bkg st) (s_nsg st) (s_gkey st) (s_gv st).
 Definition set_lin (st : state) v := mkst (s_sid st) (s_view st) (s_srcf st) (s_cur st) (s_evd st) v (s_par st) (s_sig st) (s_bkg st) (s_nsg st) (s_gkey st) (s_gv st).
@@ -129,7 +133,7 @@ Definition calc_source_fields (st : state) (s : Src) : state :=
 Definition init (s0 : Src) : state :=
   calc_source_fields
     (mkst tdm_sid_initial None None s0 None (None, 0, None) (None, 0, None)
-          (fun _ => mkpdfc None None) (mkpdfc None None) None gfp_initial_value None) s0.
+          (fun _ => mkpdfc None None) (mkpdfc None None) None (gfp_initial_value, gfp_initial_value) (None, None)) s0.
 
 (* Analysis.initialize_trial: tdm.initialize_trial then
    llhratio.initialize_for_new_trial *)
@@ -144,10 +148,11 @@ Definition init_trial (st : state) (d : Data) : state :=
      column (modelled: a new array, the column of a plain field is gone;
      DataField._values of a srcevt field stays); the event data snapshot does
      not read the field *)
-  mkst sid3 (Some vw) (s_srcf st) (s_cur st) (Some (vw, (s_srcf st, None)))
+  mkst sid3 (Some vw) (s_srcf st) (s_cur st) (Some (vw, (s_srcf st, (None, None))))
        (s_lin st) (s_par st) (s_sig st) (s_bkg st)
        (match ns2_reset_on_new_trial with None => None | Some _ => s_nsg st end)
-       gfp_reset_on_new_trial (if gfp_is_srcevt (c_gfp_srcevt C) then s_gv st else None).
+       (gfp_reset_on_new_trial, gfp_reset_on_new_trial)
+       (if gfp_is_srcevt (c_gfp_srcevt C) then s_gv st else (None, None)).
 
 (* SingleDatasetTCLLHRatio.change_shg_mgr *)
 Definition change_source (st : state) (s : Src) : state :=
@@ -235,25 +240,45 @@ Definition interp (st : state) (cur evd : Tv) (x : Z) :=
 
 (* ZeroSigH0SingleDatasetTCLLHRatio.evaluate with a SigOverBkgPDFRatio of a
    SignalMultiDimGridPDFSet and a background MultiDimGridPDF *)
-(* the first part of evaluate: tdm.calculate_global_fitparam_data_fields with
-   DataField._calc_global_fitparam_dependent_values for the one field (name 1;
-   the events array has column 0 and, once calculated, a plain field's column 1) *)
-Definition gfp_step (st : state) (vw : view Data Src) (x : Z) : state * list tr :=
+(* the columns of the events array: 0 (the event data), 1 / 2 once a plain field 1 / 2 has been calculated *)
+Definition cols (st : state) : list Z :=
+  if gfp_is_srcevt (c_gfp_srcevt C) then [0]
+  else 0 :: (match fst (s_gv st) with Some _ => [1] | None => [] end)
+         ++ (match snd (s_gv st) with Some _ => [2] | None => [] end).
+
+(* DataField._calc_global_fitparam_dependent_values of field 1 (depends on the
+   interpolation parameter) and of field 2 (registered last, depends on ns):
+   new state and whether the calculation function was called *)
+Definition gfp_field1 (st : state) (vw : view Data Src) (x : Z) : state * bool :=
+  let calc := if gfp_name_missing 1 (cols st) then true else gfp_value_differs x (fst (s_gkey st)) in
+  (if gfp_skip_calc calc then st
+   else set_g st (Some (gfp_store_value x), snd (s_gkey st))
+                 (Some (Fg W vw (s_srcf st) (s_cur st) x), snd (s_gv st)), calc).
+
+Definition gfp_field2 (st : state) (vw : view Data Src) (ns : Z) : state * bool :=
+  let calc := if gfp_name_missing 2 (cols st) then true else gfp_value_differs ns (snd (s_gkey st)) in
+  (if gfp_skip_calc calc then st
+   else set_g st (fst (s_gkey st), Some (gfp_store_value ns))
+                 (fst (s_gv st), Some (Fg2 W vw (s_srcf st) (s_cur st) ns)), calc).
+
+(* the first part of evaluate: tdm.calculate_global_fitparam_data_fields — every
+   field in registration order, then ONE state-id bump whether or not a field
+   was recalculated *)
+Definition gfp_step (st : state) (vw : view Data Src) (ns x : Z) : state * list tr :=
   if llh_calc_gfp (tdm_has_gfp (c_ngfp C)) then
     if tdm_gfp_skip (c_ngfp C) then (st, [])
     else
-      let cols := if gfp_is_srcevt (c_gfp_srcevt C) then [0]
-                  else match s_gv st with Some _ => [0; 1] | None => [0] end in
-      let calc := if gfp_name_missing 1 cols then true else gfp_value_differs x (s_gkey st) in
-      let st1 := if gfp_skip_calc calc then st
-                 else set_g st (Some (gfp_store_value x)) (Some (Fg W vw (s_srcf st) (s_cur st) x)) in
-      (set_sid st1 (tdm_gfp_bump (s_sid st1)), if calc then [TG] else [])
+      let '(st1, c1) := gfp_field1 st vw x in
+      if 2 <=? c_ngfp C then
+        let '(st2, c2) := gfp_field2 st1 vw ns in
+        (set_sid st2 (tdm_gfp_bump (s_sid st2)), (if c1 then [TG] else []) ++ (if c2 then [TG2] else []))
+      else (set_sid st1 (tdm_gfp_bump (s_sid st1)), if c1 then [TG] else [])
   else (st, []).
 
 Definition evaluate (st : state) (ns x : Z) : state * res (Out W) * list tr :=
   match s_view st, s_evd st with
   | Some vw, Some evd =>
-    let '(st0, tg) := gfp_step st vw x in
+    let '(st0, tg) := gfp_step st vw ns x in
     let cur := (vw, s_ext st0) in
     let '(st1, t, r) := interp st0 cur evd x in
     match r with
@@ -270,7 +295,7 @@ Definition evaluate (st : state) (ns x : Z) : state * res (Out W) * list tr :=
 Definition ns_grad2 (st : state) (ns : Z) : res (Out2 W) :=
   if ns2_no_cache (match s_nsg st with None => None | Some _ => Some 0 end) then Err RuntimeError
   else match s_nsg st, s_view st with
-       | Some g, Some vw => Ok (g2 W g (vw, (s_srcf st, None)) ns)
+       | Some g, Some vw => Ok (g2 W g (vw, (s_srcf st, (None, None))) ns)
        | _, _ => Err TypeError
        end.
 
@@ -327,7 +352,8 @@ Arguments s_ext {W} _.
    correspondence and for the witnesses. *)
 Definition enc_tv (c : tv Z Z (list Z)) : list Z :=
   [v_data (fst c); v_isrc (fst c); match fst (snd c) with None => -1 | Some s => s end]
-  ++ match snd (snd c) with None => [0; 0; 0; 0; 0; 0] | Some g => 1 :: g end.
+  ++ match fst (snd (snd c)) with None => [0; 0; 0; 0; 0; 0] | Some g => 1 :: g end
+  ++ match snd (snd (snd c)) with None => [0; 0; 0; 0; 0; 0] | Some g => 2 :: g end.
 
 (* regular grid lb + i*d of the code (ParameterGrid), values in units of a
    dyadic fraction; PDFs exist for lo <= g <= hi *)
@@ -352,7 +378,8 @@ Definition wfree (lb d lo hi : Z) : world :=
     (fun o b cur p => [7; fst p; snd p] ++ enc_tv cur ++ b ++ o)
     (fun o b cur p => [8; fst p; snd p] ++ enc_tv cur ++ b ++ o)
     (fun g cur ns => [9; ns] ++ enc_tv cur ++ g)
-    (fun vw sf cs x => [v_data vw; v_isrc vw; match sf with None => -1 | Some s => s end; cs; x]).
+    (fun vw sf cs x => [v_data vw; v_isrc vw; match sf with None => -1 | Some s => s end; cs; x])
+    (fun vw sf cs n => [v_data vw; v_isrc vw; match sf with None => -1 | Some s => s end; cs; n]).
 
 (* ------------------------------------------------------------------------
    Two datasets: MultiDatasetTCLLHRatio over two ZeroSigH0SingleDatasetTCLLHRatio
@@ -463,3 +490,109 @@ Definition mwfree (lb d lo hi : Z) : mworld (wfree lb d lo hi) :=
     (fun o1 o2 cs p => [20; cs; fst p; snd p] ++ o1 ++ o2)
     (fun a b cs n => [21; cs; n] ++ a ++ b)
     (fun v l => 22 :: v ++ l).
+
+(* ------------------------------------------------------------------------
+   Maximisation and test statistic.  The minimiser (scipy L-BFGS-B, Newton-
+   Raphson, ...) is an ORACLE: a deterministic strategy that, from the list of
+   the queries made so far and what evaluate returned for them, chooses the next
+   parameter point or stops; the result (log_lambda_max, best fit, status) is a
+   function `pick` of that list, the test statistic a function of the result. *)
+Section Maximize.
+Variable W : world.
+Variable C : cfg.
+Variable MaxOut : Type.
+Definition qlog := list ((Z * Z) * res (Out W)).
+Variable strat : qlog -> option (Z * Z).      (* None: converged / gave up *)
+Variable pick : qlog -> MaxOut.
+
+(* LLHRatio.maximize: the objective is evaluate on the very same objects *)
+Fixpoint max_loop (fuel : nat) (st : state W) (h : qlog) : state W * qlog * list tr :=
+  match fuel with
+  | 0%nat => (st, h, [])
+  | S f =>
+    match strat h with
+    | None => (st, h, [])
+    | Some (ns, x) =>
+      let '(st1, r, t) := evaluate W C st ns x in
+      let '(st2, h2, t2) := max_loop f st1 (h ++ [((ns, x), r)]) in
+      (st2, h2, t ++ t2)
+    end
+  end.
+
+Definition maximize (fuel : nat) (st : state W) : state W * MaxOut :=
+  let '(st', h, _) := max_loop fuel st [] in (st', pick h).
+
+(* histories that may contain maximisations *)
+Inductive xop := XOp (o : op W) | XMax (fuel : nat).
+
+Fixpoint xfinal (st : state W) (xs : list xop) : state W :=
+  match xs with
+  | [] => st
+  | XOp o :: r => xfinal (fst (fst (step W C st o))) r
+  | XMax fuel :: r => xfinal (fst (maximize fuel st)) r
+  end.
+
+End Maximize.
+
+(* ------------------------------------------------------------------------
+   SplinedI3EnergySigSetOverBkgPDFRatio in place of the SigOverBkgPDFRatio: its
+   own _cache = (trial_data_state_id, interpol_params_recarray, (ratio, grads))
+   in front of the interpolation method; get_gradient re-uses what get_ratio
+   cached.  (The event data it hands to the interpolation method is rebuilt from
+   the manager at every call; it is modelled by the snapshot taken when the
+   trial was initialised, of which it is a function.) *)
+Section I3.
+Variable W : world.
+Variable C : cfg.
+
+Record i3state := mki3 {
+  i_base : state W;
+  i_c : option Z * Z * option (O W) }.
+
+Definition i3init (s0 : src W) : i3state := mki3 (init W C s0) (None, 0, None).
+
+(* SplinedI3EnergySigSetOverBkgPDFRatio._is_cached: none of its three tests fires *)
+Definition i3_is_cached (c : option Z * Z * option (O W)) (sid x : Z) : bool :=
+  negb (i3_sid_none (fst (fst c))) && negb (i3_sid_differs (fst (fst c)) sid) && negb (i3_key_differs (snd (fst c)) x).
+
+Definition i3_evaluate (s : i3state) (ns x : Z) : i3state * res (Out W) * list tr :=
+  let st := i_base s in
+  match s_view st, s_evd st with
+  | Some vw, Some evd =>
+    let '(st0, tg) := gfp_step W C st vw ns x in
+    let cur := (vw, s_ext st0) in
+    if i3_is_cached (i_c s) (s_sid st0) x then
+      match snd (i_c s) with
+      | Some o => (mki3 (set_bkg_nsg W st0 (s_bkg st0) (Some (nsg_of W o (Fbkg W cur) cur (ns, x)))) (i_c s),
+                   Ok (fin W o (Fbkg W cur) cur (ns, x)), tg)
+      | None => (mki3 st0 (i_c s), Err TypeError, tg)
+      end
+    else
+      let '(st1, t, r) := interp W C st0 cur evd x in
+      match r with
+      | Err e => (mki3 st1 (i_c s), Err e, tg ++ t)
+      | Ok o => (mki3 (set_bkg_nsg W st1 (s_bkg st1) (Some (nsg_of W o (Fbkg W cur) cur (ns, x))))
+                      (Some (s_sid st1), x, Some o),
+                 Ok (fin W o (Fbkg W cur) cur (ns, x)), tg ++ t)
+      end
+  | _, _ => (s, Err TypeError, [])
+  end.
+
+Definition i3step (s : i3state) (o : op W) : i3state * obs W * list tr :=
+  match o with
+  | InitTrial _ d => (mki3 (init_trial W C (i_base s) d) (i_c s), ONone W, [])
+  | ChangeSource _ sr => (mki3 (change_source W C (i_base s) sr) (i_c s), ONone W, [])
+  | Evaluate _ ns x => let '(s', r, t) := i3_evaluate s ns x in (s', OEval W r, t)
+  | NsGrad2 _ n => (s, ONs2 W (ns_grad2 W (i_base s) n), [])
+  end.
+
+Fixpoint i3run (s : i3state) (ops : list (op W)) : list (obs W * list tr * Z) :=
+  match ops with
+  | [] => []
+  | o :: r => let '(s', ob, t) := i3step s o in (ob, t, s_sid (i_base s')) :: i3run s' r
+  end.
+
+Definition i3observations (s : i3state) (ops : list (op W)) : list (obs W) :=
+  map (fun x => fst (fst x)) (i3run s ops).
+
+End I3.
